@@ -122,6 +122,9 @@ type caseSpec struct {
 	ReadErrors    bool       `json:"read_errors,omitempty"`   // the application reads group.Errors()
 	Close         bool       `json:"close"`
 	Leave         string     `json:"leave,omitempty"` // ok err drop
+	// RetentionMs > 0: Consumer.Offsets.Retention is configured, so commits use the v2 OffsetCommitRequest; every
+	// request of the session must still carry the issued member id and generation (adversary change C07-11)
+	RetentionMs int64 `json:"retention_ms,omitempty"`
 }
 
 // ---------- observation ----------
@@ -758,6 +761,9 @@ func runCase(cs caseSpec) obs {
 		}
 	}
 	cfg.Consumer.Offsets.AutoCommit.Interval = time.Minute
+	if cs.RetentionMs > 0 {
+		cfg.Consumer.Offsets.Retention = time.Duration(cs.RetentionMs) * time.Millisecond
+	}
 	cfg.Consumer.Offsets.Retry.Max = cs.Attempts - 1
 	cfg.Consumer.Offsets.Initial = sarama.OffsetNewest
 	if cs.InitialOldest {
